@@ -158,6 +158,13 @@ def main():
     src = out + "/verif-snap"
     if not os.path.isdir(src):
         sh(["rsync", "-a", "--exclude", ".git", "--exclude", "replays", "--exclude", "seeded", VERIF + "/", src + "/"])
+    # the sweep works on frozen copies of /verif and /repo, so that both can move on while it runs
+    global REPO
+    rsnap = out + "/repo-snap"
+    if not os.path.isdir(rsnap):
+        sh(["rsync", "-a", "--exclude", ".git", "/repo/", rsnap + "/"])
+    REPO = rsnap
+    seedeval.REPO = rsnap
     cands = candidates(files)
     rnd = random.Random(seed)
     rnd.shuffle(cands)
